@@ -11,6 +11,7 @@
 //! trusted: R6: `for (htlc, counterparty_sig) in A.iter().zip(B.iter())` becomes an index loop over min(A.len(), B.len()) (std semantics of Iterator::zip) with the two bindings taken by index
 //! trusted: env: Secp256k1::verify_ecdsa is external_body whose result is Ok exactly when the uninterpreted predicate sig_valid(msg, sig, key) holds (any signature scheme); the sighash of the commitment transaction and the sighash of each second-stage HTLC transaction are opaque values (commitment_sighash / htlc_sighash_of(htlc), uninterpreted functions of the built transaction / the HTLC); PublicKey, Signature, Message opaque; CommitmentSigned skeleton {signature, htlc_signatures}; CommitmentTransaction skeleton with external_body nondust_htlcs() returning the stored list
 //! trusted: assume_specification for core::cmp::max / core::cmp::min (std definitions): present in every unit so that a change that introduces them is verified instead of being rejected by the tool
+//! trusted: closed_monitor: ChannelMonitorImpl::no_further_updates_allowed is extracted whole (three-flag skeleton of the monitor); update_monitor: the match that classifies each step of an update as pre-close and the condition of the final refusal are deep R15 slices; ChannelMonitorUpdateStep is re-declared with its eleven variant names and dummy payloads (the source patterns use `{ .. }`); applying the steps is dropped and not claimed
 use vstd::prelude::*;
 verus! {
 use vstd::std_specs::cmp::*;
@@ -283,5 +284,51 @@ impl RestartMon {
 //@with
     
 //@end
+
+// ---- ChannelMonitor: once the channel is closed (our commitment signed for broadcast, lockdown, or a funding spend seen) ----------
+// no update that advances commitment state is accepted any more, so the broadcast commitment is never revoked behind the monitor's back
+pub mod closed_monitor {
+use vstd::prelude::*;
+pub enum ChannelMonitorUpdateStep {
+    LatestHolderCommitmentTXInfo { x: u8 }, LatestHolderCommitment { x: u8 }, LatestCounterpartyCommitmentTXInfo { x: u8 }, LatestCounterpartyCommitment { x: u8 },
+    PaymentPreimage { x: u8 }, CommitmentSecret { x: u8 }, ChannelForceClosed { should_broadcast: bool }, ShutdownScript { x: u8 }, RenegotiatedFunding { x: u8 },
+    RenegotiatedFundingLocked { x: u8 }, ReleasePaymentComplete { x: u8 },
+}
+pub open spec fn advances_channel_state(u: ChannelMonitorUpdateStep) -> bool { !(u is PaymentPreimage || u is ChannelForceClosed || u is ReleasePaymentComplete) }
+pub struct ChannelMonitorImpl { pub funding_spend_seen: bool, pub lockdown_from_offchain: bool, pub holder_tx_signed: bool }
+impl ChannelMonitorImpl {
+//@extract lightning/src/chain/channelmonitor.rs :: impl ChannelMonitorImpl :: fn no_further_updates_allowed
+//@ret r
+//@ensures P C05,C10 a-monitor-counts-as-closed-once-a-funding-spend-was-seen-it-was-locked-down-or-its-holder-commitment-was-signed-for-broadcast
+    r == (self.funding_spend_seen || self.lockdown_from_offchain || self.holder_tx_signed),
+//@mutant signed_holder_commitment_does_not_close_the_monitor
+    self.funding_spend_seen || self.lockdown_from_offchain || self.holder_tx_signed
+//@with
+    self.funding_spend_seen || self.lockdown_from_offchain
+//@end
+//@extract lightning/src/chain/channelmonitor.rs :: impl ChannelMonitorImpl :: fn update_monitor
+//@slice R15
+    for update in updates.updates.iter() { match update { $arms:any } } if ret.is_ok() && self.no_further_updates_allowed() && is_pre_close_update {
+//@with
+    fn step_is_a_pre_close_update(update: &ChannelMonitorUpdateStep) -> bool { let mut is_pre_close_update = false; match update { $arms } is_pre_close_update }
+//@ret r
+//@ensures P C05,C10 every-update-step-that-advances-commitment-state-is-classified-as-a-pre-close-update
+    r == advances_channel_state(*update),
+//@mutant commitment_secret_still_accepted_after_close
+    |ChannelMonitorUpdateStep::CommitmentSecret { .. }
+//@with
+    
+//@end
+//@extract lightning/src/chain/channelmonitor.rs :: impl ChannelMonitorImpl :: fn update_monitor
+//@slice R15
+    if $c:cond { Err(()) } else { ret } }
+//@with
+    fn update_refused_on_closed_monitor(&self, ret: &Result<(), ()>, is_pre_close_update: bool) -> bool { $c }
+//@ret r
+//@ensures P C05,C10 an-otherwise-valid-update-that-advances-commitment-state-is-refused-once-the-monitor-is-closed
+    r == (*ret is Ok && (self.funding_spend_seen || self.lockdown_from_offchain || self.holder_tx_signed) && is_pre_close_update),
+//@end
+}
+}
 }
 fn main() {}
